@@ -22,22 +22,55 @@ def parenOk : List Nat → Bool
   | _ => true
 
 /-- What may follow a `\` (where escapes are admitted at all): anything but `p`, `P` (property
-escapes), `k` (named back-references) and `1`–`9` (decimal back-references). -/
-def escOk (x : Nat) : Bool :=
-  !(x == 0x70 || x == 0x50 || x == 0x6B || (decide (0x31 ≤ x) && decide (x ≤ 0x39)))
+escapes) and `k` (named back-references). -/
+def escOk (x : Nat) : Bool := !(x == 0x70 || x == 0x50 || x == 0x6B)
 
-/-- The lexical fragment.  `e`: escapes admitted.  No `[`, no named group, no modifier group; a `\`
-(only if `e`) makes the next character part of the escape. -/
-def fragCore (e : Bool) : List Nat → Bool
-  | [] => true
-  | 0x5C :: x :: r => e && escOk x && fragCore e r
-  | c :: r => (c != 0x5C || e) && c != 0x5B && (c != 0x28 || parenOk r) && fragCore e r
+/-- The lexical fragment, as a scanner with two modes (`true`: inside a character class).
+`e`: escapes admitted; `k`: character classes admitted.  Outside a class: no named group, no
+modifier group; a `\` (only if `e`) makes the next character part of the escape; a `[` (only if `k`)
+opens a class.  Inside a class: a `\` makes the next character part of the escape (which must not be
+`p` / `P`), the first other `]` closes the class. -/
+def fragGo (e k : Bool) : Bool → List Nat → Bool
+  | true, [] => true
+  | true, 0x5C :: x :: r => !(x == 0x70 || x == 0x50) && fragGo e k true r
+  | true, 0x5D :: r => fragGo e k false r
+  | true, _ :: r => fragGo e k true r
+  | false, [] => true
+  | false, 0x5C :: x :: r => e && escOk x && fragGo e k false r
+  | false, 0x5B :: r => k && fragGo e k true r
+  | false, c :: r => (c != 0x5C || e) && (c != 0x28 || parenOk r) && fragGo e k false r
 
-/-- Nesting depth: the largest excess of unescaped `(` over unescaped `)` in a prefix. -/
-def md : List Nat → Nat
-  | [] => 0
-  | 0x5C :: _ :: r => md r
-  | c :: r => if c == 0x28 then md r + 1 else if c == 0x29 then md r - 1 else md r
+def fragCore (e k : Bool) (l : List Nat) : Bool := fragGo e k false l
+
+/-- Nesting depth, as a scanner: the largest excess of `(` over `)` in a prefix, counting only
+parentheses that are neither escaped nor inside a class. -/
+def mdGo : Bool → List Nat → Nat
+  | true, [] => 0
+  | true, 0x5C :: _ :: r => mdGo true r
+  | true, 0x5D :: r => mdGo false r
+  | true, _ :: r => mdGo true r
+  | false, [] => 0
+  | false, 0x5C :: _ :: r => mdGo false r
+  | false, 0x5B :: r => mdGo true r
+  | false, c :: r =>
+    if c == 0x28 then mdGo false r + 1 else if c == 0x29 then mdGo false r - 1 else mdGo false r
+
+def md (l : List Nat) : Nat := mdGo false l
+
+/-- Number of capturing groups, as a scanner: `(` not followed by `?`, neither escaped nor inside a
+class (on the fragment every `(?` opens a non-capturing group or a look-around, or is an error). -/
+def capGo : Bool → List Nat → Nat
+  | true, [] => 0
+  | true, 0x5C :: _ :: r => capGo true r
+  | true, 0x5D :: r => capGo false r
+  | true, _ :: r => capGo true r
+  | false, [] => 0
+  | false, 0x5C :: _ :: r => capGo false r
+  | false, 0x5B :: r => capGo true r
+  | false, 0x28 :: 0x3F :: r => capGo false r
+  | false, c :: r => (if c == 0x28 then 1 else 0) + capGo false r
+
+def capOpens (l : List Nat) : Nat := capGo false l
 
 /-- Number of `(`. -/
 def opens : List Nat → Nat
@@ -49,36 +82,109 @@ def quants : List Nat → Nat
   | [] => 0
   | c :: r => if c == 0x2A || c == 0x2B || c == 0x3F || c == 0x7B then quants r + 1 else quants r
 
-theorem fragCore_esc (e : Bool) (x : Nat) (r : List Nat) :
-    fragCore e (0x5C :: x :: r) = (e && escOk x && fragCore e r) := by
-  rw [fragCore]
+/-! ### Equations of the scanners -/
 
-theorem fragCore_cons (e : Bool) {c : Nat} (r : List Nat) (hc : c ≠ 0x5C) :
-    fragCore e (c :: r) = (c != 0x5B && (c != 0x28 || parenOk r) && fragCore e r) := by
-  rw [fragCore]
+theorem mdGo_esc (m : Bool) (x : Nat) (r : List Nat) : mdGo m (0x5C :: x :: r) = mdGo m r := by
+  cases m <;> rw [mdGo]
+
+theorem mdGo_in {c : Nat} (r : List Nat) (h1 : c ≠ 0x5C) (h2 : c ≠ 0x5D) :
+    mdGo true (c :: r) = mdGo true r := by
+  rw [mdGo]
+  · intro x r' h; exact absurd h h1
+  · intro h; exact absurd h h2
+
+theorem mdGo_close (r : List Nat) : mdGo true (0x5D :: r) = mdGo false r := by rw [mdGo]
+theorem mdGo_open (r : List Nat) : mdGo false (0x5B :: r) = mdGo true r := by rw [mdGo]
+
+theorem mdGo_out {c : Nat} (r : List Nat) (h1 : c ≠ 0x5C) (h2 : c ≠ 0x5B) :
+    mdGo false (c :: r) =
+      if c == 0x28 then mdGo false r + 1 else if c == 0x29 then mdGo false r - 1 else mdGo false r := by
+  rw [mdGo]
+  · intro x r' h; exact absurd h h1
+  · intro h; exact absurd h h2
+
+theorem capGo_esc (m : Bool) (x : Nat) (r : List Nat) : capGo m (0x5C :: x :: r) = capGo m r := by
+  cases m <;> rw [capGo]
+
+theorem capGo_in {c : Nat} (r : List Nat) (h1 : c ≠ 0x5C) (h2 : c ≠ 0x5D) :
+    capGo true (c :: r) = capGo true r := by
+  rw [capGo]
+  · intro x r' h; exact absurd h h1
+  · intro h; exact absurd h h2
+
+theorem capGo_close (r : List Nat) : capGo true (0x5D :: r) = capGo false r := by rw [capGo]
+theorem capGo_open (r : List Nat) : capGo false (0x5B :: r) = capGo true r := by rw [capGo]
+theorem capGo_nil (m : Bool) : capGo m [] = 0 := by cases m <;> rw [capGo]
+
+theorem capOpens_esc (x : Nat) (r : List Nat) : capOpens (0x5C :: x :: r) = capOpens r := capGo_esc false x r
+
+theorem capOpens_q (r : List Nat) : capOpens (0x28 :: 0x3F :: r) = capOpens r := by
+  unfold capOpens; rw [capGo]
+
+theorem capOpens_cap {r : List Nat} (hr : ∀ r', r ≠ 0x3F :: r') : capOpens (0x28 :: r) = capOpens r + 1 := by
+  unfold capOpens
+  rw [capGo]
+  · simp; omega
+  · intro x r' h; cases h
+  · intro h; cases h
+  · intro r' _ h; exact hr r' h
+
+theorem capOpens_plain {c : Nat} (r : List Nat) (h1 : c ≠ 0x28) (h2 : c ≠ 0x5C) (h3 : c ≠ 0x5B) :
+    capOpens (c :: r) = capOpens r := by
+  unfold capOpens
+  rw [capGo]
+  · simp [h1]
+  · intro x r' h; exact absurd h h2
+  · intro h; exact absurd h h3
+  · intro r' h; exact absurd h h1
+
+theorem fragGo_esc_out (e k : Bool) (x : Nat) (r : List Nat) :
+    fragGo e k false (0x5C :: x :: r) = (e && escOk x && fragGo e k false r) := by rw [fragGo]
+
+theorem fragGo_esc_in (e k : Bool) (x : Nat) (r : List Nat) :
+    fragGo e k true (0x5C :: x :: r) = (!(x == 0x70 || x == 0x50) && fragGo e k true r) := by rw [fragGo]
+
+theorem fragGo_in (e k : Bool) {c : Nat} (r : List Nat) (h1 : c ≠ 0x5C) (h2 : c ≠ 0x5D) :
+    fragGo e k true (c :: r) = fragGo e k true r := by
+  rw [fragGo]
+  · intro x r' h; exact absurd h h1
+  · intro h; exact absurd h h2
+
+theorem fragGo_close (e k : Bool) (r : List Nat) : fragGo e k true (0x5D :: r) = fragGo e k false r := by
+  rw [fragGo]
+
+theorem fragGo_open (e k : Bool) (r : List Nat) : fragGo e k false (0x5B :: r) = (k && fragGo e k true r) := by
+  rw [fragGo]
+
+theorem fragCore_esc (e k : Bool) (x : Nat) (r : List Nat) :
+    fragCore e k (0x5C :: x :: r) = (e && escOk x && fragCore e k r) := fragGo_esc_out e k x r
+
+theorem fragCore_cons (e k : Bool) {c : Nat} (r : List Nat) (hc : c ≠ 0x5C) (hb : c ≠ 0x5B) :
+    fragCore e k (c :: r) = ((c != 0x28 || parenOk r) && fragCore e k r) := by
+  unfold fragCore
+  rw [fragGo]
   · have hb : (c != 0x5C) = true := bne_iff_ne.2 hc
     rw [hb]; rfl
   · intro x r' h; exact absurd h hc
+  · intro h; exact absurd h hb
 
-theorem md_esc (x : Nat) (r : List Nat) : md (0x5C :: x :: r) = md r := by
-  rw [md]
+theorem md_esc (x : Nat) (r : List Nat) : md (0x5C :: x :: r) = md r := mdGo_esc false x r
 
-theorem md_cons {c : Nat} (r : List Nat) (hc : c ≠ 0x5C) :
-    md (c :: r) = if c == 0x28 then md r + 1 else if c == 0x29 then md r - 1 else md r := by
-  rw [md]
-  intro x r' h; exact absurd h hc
+theorem md_cons {c : Nat} (r : List Nat) (hc : c ≠ 0x5C) (hb : c ≠ 0x5B) :
+    md (c :: r) = if c == 0x28 then md r + 1 else if c == 0x29 then md r - 1 else md r :=
+  mdGo_out r hc hb
 
-theorem fragCore_tail {e : Bool} {c : Nat} {r : List Nat} (hc : c ≠ 0x5C) (h : fragCore e (c :: r) = true) :
-    fragCore e r = true := by
-  rw [fragCore_cons e r hc] at h
+theorem fragCore_tail {e k : Bool} {c : Nat} {r : List Nat} (hc : c ≠ 0x5C) (hb : c ≠ 0x5B)
+    (h : fragCore e k (c :: r) = true) : fragCore e k r = true := by
+  rw [fragCore_cons e k r hc hb] at h
   simp at h; exact h.2
 
-theorem fragCore_head {e : Bool} {c : Nat} {r : List Nat} (hc : c ≠ 0x5C) (h : fragCore e (c :: r) = true) :
-    c ≠ 0x5B ∧ (c = 0x28 → parenOk r = true) := by
-  rw [fragCore_cons e r hc] at h
+theorem fragCore_head {e k : Bool} {c : Nat} {r : List Nat} (hc : c ≠ 0x5C) (hb : c ≠ 0x5B)
+    (h : fragCore e k (c :: r) = true) : c = 0x28 → parenOk r = true := by
+  rw [fragCore_cons e k r hc hb] at h
   simp at h
-  refine ⟨h.1.1, fun hc => ?_⟩
-  rcases h.1.2 with h' | h'
+  intro hc
+  rcases h.1 with h' | h'
   · exact absurd hc h'
   · exact h'
 
@@ -92,39 +198,96 @@ theorem quants_append_le (p r : List Nat) : quants r ≤ quants (p ++ r) := by
   | nil => exact Nat.le_refl _
   | cons c p ih => simp only [List.cons_append, quants]; split <;> omega
 
-/-- A prefix whose removal changes neither the nesting depth nor membership in the fragment: a
-sequence of ordinary characters and complete two-character escapes. -/
-def Neutral (e : Bool) (p : List Nat) : Prop :=
-  ∀ r, md (p ++ r) = md r ∧ (fragCore e (p ++ r) = true → fragCore e r = true)
+/-- A prefix whose removal, in scanner mode `m`, changes neither the mode, nor the nesting depth, nor
+the group count, nor membership in the fragment. -/
+def NeutralM (e k : Bool) (m : Bool) (p : List Nat) : Prop :=
+  ∀ r, mdGo m (p ++ r) = mdGo m r ∧ capGo m (p ++ r) = capGo m r ∧
+    (fragGo e k m (p ++ r) = true → fragGo e k m r = true)
 
-theorem neutral_nil (e : Bool) : Neutral e [] := fun _ => ⟨rfl, id⟩
+/-- Neutral outside a class. -/
+def Neutral (e k : Bool) (p : List Nat) : Prop := NeutralM e k false p
 
-theorem neutral_append {e : Bool} {p q : List Nat} (hp : Neutral e p) (hq : Neutral e q) :
-    Neutral e (p ++ q) := by
+theorem neutralM_nil (e k m : Bool) : NeutralM e k m [] := fun _ => ⟨rfl, rfl, id⟩
+
+theorem neutralM_append {e k m : Bool} {p q : List Nat} (hp : NeutralM e k m p) (hq : NeutralM e k m q) :
+    NeutralM e k m (p ++ q) := by
   intro r
   rw [List.append_assoc]
-  exact ⟨(hp (q ++ r)).1.trans (hq r).1, fun h => (hq r).2 ((hp (q ++ r)).2 h)⟩
+  exact ⟨(hp (q ++ r)).1.trans (hq r).1, (hp (q ++ r)).2.1.trans (hq r).2.1,
+    fun h => (hq r).2.2 ((hp (q ++ r)).2.2 h)⟩
 
-/-- An ordinary character: not a parenthesis, not a backslash. -/
-def Plain (c : Nat) : Prop := c ≠ 0x28 ∧ c ≠ 0x29 ∧ c ≠ 0x5C
+theorem Neutral.md_eq {e k : Bool} {p : List Nat} (hp : Neutral e k p) (r : List Nat) :
+    md (p ++ r) = md r := (hp r).1
+theorem Neutral.cap_eq {e k : Bool} {p : List Nat} (hp : Neutral e k p) (r : List Nat) :
+    capOpens (p ++ r) = capOpens r := (hp r).2.1
+theorem Neutral.frag {e k : Bool} {p : List Nat} (hp : Neutral e k p) {r : List Nat}
+    (h : fragCore e k (p ++ r) = true) : fragCore e k r = true := (hp r).2.2 h
 
-theorem neutral_plain (e : Bool) {c : Nat} (h : Plain c) : Neutral e [c] := by
+theorem neutral_nil (e k : Bool) : Neutral e k [] := neutralM_nil e k false
+
+theorem neutral_append {e k : Bool} {p q : List Nat} (hp : Neutral e k p) (hq : Neutral e k q) :
+    Neutral e k (p ++ q) := neutralM_append hp hq
+
+/-- An ordinary character in both scanner modes: no parenthesis, bracket or backslash. -/
+def Plain (c : Nat) : Prop := c ≠ 0x28 ∧ c ≠ 0x29 ∧ c ≠ 0x5C ∧ c ≠ 0x5B ∧ c ≠ 0x5D
+
+theorem neutralM_plain (e k m : Bool) {c : Nat} (h : Plain c) : NeutralM e k m [c] := by
   intro r
-  obtain ⟨h1, h2, h3⟩ := h
-  refine ⟨?_, fun hf => fragCore_tail h3 hf⟩
-  simp [md_cons r h3, h1, h2]
+  obtain ⟨h1, h2, h3, h4, h5⟩ := h
+  cases m with
+  | true =>
+    exact ⟨mdGo_in r h3 h5, capGo_in r h3 h5, fun hf => by rwa [List.singleton_append, fragGo_in e k r h3 h5] at hf⟩
+  | false =>
+    refine ⟨?_, capOpens_plain r h1 h3 h4, fun hf => fragCore_tail h3 h4 hf⟩
+    simp [mdGo_out r h3 h4, h1, h2]
 
-theorem neutral_esc (e : Bool) (x : Nat) : Neutral e [0x5C, x] := by
+theorem neutralM_esc (e k m : Bool) (x : Nat) : NeutralM e k m [0x5C, x] := by
   intro r
-  refine ⟨md_esc x r, fun hf => ?_⟩
-  simp only [List.cons_append, List.nil_append, fragCore_esc, Bool.and_eq_true] at hf
-  exact hf.2
+  refine ⟨mdGo_esc m x r, capGo_esc m x r, fun hf => ?_⟩
+  cases m with
+  | true =>
+    simp only [List.cons_append, List.nil_append, fragGo_esc_in, Bool.and_eq_true] at hf
+    exact hf.2
+  | false =>
+    simp only [List.cons_append, List.nil_append, fragGo_esc_out, Bool.and_eq_true] at hf
+    exact hf.2
 
-theorem neutral_plains (e : Bool) {p : List Nat} (h : ∀ c ∈ p, Plain c) : Neutral e p := by
+theorem neutralM_plains (e k m : Bool) {p : List Nat} (h : ∀ c ∈ p, Plain c) : NeutralM e k m p := by
   induction p with
-  | nil => exact neutral_nil e
+  | nil => exact neutralM_nil e k m
   | cons c p ih =>
-    exact neutral_append (p := [c]) (neutral_plain e (h c (by simp))) (ih (fun x hx => h x (by simp [hx])))
+    exact neutralM_append (p := [c]) (neutralM_plain e k m (h c (by simp)))
+      (ih (fun x hx => h x (by simp [hx])))
+
+theorem neutral_plain (e k : Bool) {c : Nat} (h : Plain c) : Neutral e k [c] := neutralM_plain e k false h
+theorem neutral_esc (e k : Bool) (x : Nat) : Neutral e k [0x5C, x] := neutralM_esc e k false x
+theorem neutral_plains (e k : Bool) {p : List Nat} (h : ∀ c ∈ p, Plain c) : Neutral e k p :=
+  neutralM_plains e k false h
+
+/-- Outside a class every character but `(` `)` `\` `[` is ordinary. -/
+theorem neutral_out (e k : Bool) {c : Nat} (h1 : c ≠ 0x28) (h2 : c ≠ 0x29) (h3 : c ≠ 0x5C) (h4 : c ≠ 0x5B) :
+    Neutral e k [c] := by
+  intro r
+  refine ⟨?_, capOpens_plain r h1 h3 h4, fun hf => fragCore_tail h3 h4 hf⟩
+  simp [mdGo_out r h3 h4, h1, h2]
+
+/-- Inside a class every character but `\` and `]` is ordinary. -/
+theorem neutralM_in (e k : Bool) {c : Nat} (h1 : c ≠ 0x5C) (h2 : c ≠ 0x5D) : NeutralM e k true [c] := by
+  intro r
+  exact ⟨mdGo_in r h1 h2, capGo_in r h1 h2, fun hf => by rwa [List.singleton_append, fragGo_in e k r h1 h2] at hf⟩
+
+/-- A complete class `[ body ]` is neutral outside. -/
+theorem neutral_class {e k : Bool} {b : List Nat} (hb : NeutralM e k true b) :
+    Neutral e k (0x5B :: (b ++ [0x5D])) := by
+  intro r
+  have e1 : 0x5B :: (b ++ [0x5D]) ++ r = 0x5B :: (b ++ 0x5D :: r) := by simp
+  rw [e1]
+  refine ⟨?_, ?_, fun hf => ?_⟩
+  · rw [mdGo_open, (hb _).1, mdGo_close]
+  · rw [capGo_open, (hb _).2.1, capGo_close]
+  · rw [fragGo_open, Bool.and_eq_true] at hf
+    have := (hb _).2.2 hf.2
+    rwa [fragGo_close] at this
 
 theorem quants_qdrop {r r2 : List Nat} (h : QDrop r r2) : quants r2 + 1 ≤ quants r := by
   obtain ⟨x, p, rfl, hx, _⟩ := h
@@ -134,13 +297,13 @@ theorem quants_qdrop {r r2 : List Nat} (h : QDrop r r2) : quants r2 + 1 ≤ quan
   simp only [quants, hq, if_true]
   omega
 
-theorem QDrop.neutral (e : Bool) {r r2 : List Nat} (h : QDrop r r2) : ∃ p, r = p ++ r2 ∧ Neutral e p := by
+theorem QDrop.neutral (e k : Bool) {r r2 : List Nat} (h : QDrop r r2) : ∃ p, r = p ++ r2 ∧ Neutral e k p := by
   obtain ⟨x, p, rfl, hx, hp⟩ := h
-  refine ⟨x :: p, rfl, neutral_plains e ?_⟩
+  refine ⟨x :: p, rfl, neutral_plains e k ?_⟩
   intro c hc
   rcases List.mem_cons.1 hc with rfl | h
-  · rcases hx with h | h | h | h <;> subst h <;> (refine ⟨?_, ?_, ?_⟩ <;> decide)
-  · exact ⟨(hp c h).1, (hp c h).2.1, (hp c h).2.2.1⟩
+  · rcases hx with h | h | h | h <;> subst h <;> (refine ⟨?_, ?_, ?_, ?_, ?_⟩ <;> decide)
+  · exact ⟨(hp c h).1, (hp c h).2.1, (hp c h).2.2.1, (hp c h).2.2.2.1, (hp c h).2.2.2.2⟩
 
 /-! ## Invariants -/
 
@@ -152,20 +315,32 @@ def withinLimits (pat : List Nat) : Bool :=
 
 /-- Invariant of the parser state during the descent (for a state INSIDE a disjunction, i.e. after
 `consume_disjunction` has incremented `depth`).  `e`: escapes admitted (then the input consists of
-Unicode scalar values); `u`: the mode. -/
-structure PInv (e u : Bool) (st : PState) : Prop where
+Unicode scalar values); `k`: classes admitted (then the flag `v` is off); `u`: the mode. -/
+structure PInv (e k u : Bool) (G K : Nat) (st : PState) : Prop where
   uni : st.flags.unicode = u
-  frag : fragCore e st.input = true
+  nov : k = true → st.flags.unicodeSets = false
+  frag : fragCore e k st.input = true
   chars : e = true → ∀ c ∈ st.input, Parse.isChar c = true
   depth : st.depth + md st.input ≤ 256
   groups : st.groupCount + opens st.input ≤ 65535
   loops : st.loopCount + quants st.input ≤ 65535
+  /-- `G` is the capture-group count of the pre-scan (`group_count_max`) -/
+  gmax : st.groupCountMax = G
+  /-- `K` is the number of capturing groups of the whole pattern: those already built plus those
+  still ahead -/
+  cap : st.groupCount + capOpens st.input = K
 
-/-- Invariant of the grammar recognizer's state on the fragment: no back-reference, no named group. -/
-structure EInv (est : ESG.St) : Prop where
-  maxDec : est.maxDec = 0
+/-- Invariant of the grammar recognizer's state on the fragment while the crate's parser is still
+running: every decimal escape seen so far is within the pre-scan count `G` (as the crate reads it:
+saturated to 64 bits); no named group, no named reference. -/
+structure EInv (G : Nat) (est : ESG.St) : Prop where
+  maxDec : min est.maxDec USIZE_MAX ≤ G
   refs : est.refs = []
   names : est.names = []
+
+/-- The grammar has seen a decimal escape beyond the pre-scan count: the crate has stopped with a
+syntax error, the grammar will fail its final early-error check. -/
+def Poisoned (G : Nat) (est : ESG.St) : Prop := G < min est.maxDec USIZE_MAX
 
 /-- A syntax error. -/
 def IsSyn {α : Type} (r : Res α) : Prop := ∃ msg, r = .error (.syntax msg)
@@ -173,21 +348,22 @@ def IsSyn {α : Type} (r : Res α) : Prop := ∃ msg, r = .error (.syntax msg)
 theorem isSyn_synErr {α : Type} (m : String) : IsSyn (synErr m : Res α) := ⟨m, rfl⟩
 
 /-- Consuming a neutral prefix. -/
-theorem PInv.drop {e u : Bool} {st : PState} (h : PInv e u st) {p r : List Nat} (hi : st.input = p ++ r)
-    (hp : Neutral e p) : PInv e u { st with input := r } := by
+theorem PInv.drop {e k u : Bool} {G K : Nat} {st : PState} (h : PInv e k u G K st) {p r : List Nat}
+    (hi : st.input = p ++ r) (hp : Neutral e k p) : PInv e k u G K { st with input := r } := by
   have h1 := h.depth; have h2 := h.groups; have h3 := h.loops; have h4 := h.frag
-  have h5 := h.chars
-  rw [hi] at h1 h2 h3 h4 h5
-  rw [(hp r).1] at h1
+  have h5 := h.chars; have h6 := h.cap
+  rw [hi] at h1 h2 h3 h4 h5 h6
+  rw [hp.md_eq r] at h1
+  rw [hp.cap_eq r] at h6
   have := quants_append_le p r
   have := opens_append_le p r
-  exact ⟨h.uni, (hp r).2 h4, fun he c hc => h5 he c (by simp [hc]), h1, by simp only; omega,
-    by simp only; omega⟩
+  exact ⟨h.uni, h.nov, hp.frag h4, fun he c hc => h5 he c (by simp [hc]), h1, by simp only; omega,
+    by simp only; omega, h.gmax, h6⟩
 
-theorem PInv.tail {e u : Bool} {st : PState} (h : PInv e u st) {c : Nat} {r : List Nat}
-    (hi : st.input = c :: r) (h1 : c ≠ 0x28) (h2 : c ≠ 0x29) (h3 : c ≠ 0x5C) :
-    PInv e u { st with input := r } :=
-  h.drop (p := [c]) hi (neutral_plain e ⟨h1, h2, h3⟩)
+theorem PInv.tail {e k u : Bool} {G K : Nat} {st : PState} (h : PInv e k u G K st) {c : Nat} {r : List Nat}
+    (hi : st.input = c :: r) (h1 : c ≠ 0x28) (h2 : c ≠ 0x29) (h3 : c ≠ 0x5C) (h4 : c ≠ 0x5B) :
+    PInv e k u G K { st with input := r } :=
+  h.drop (p := [c]) hi (neutral_out e k h1 h2 h3 h4)
 
 /-! ## One iteration of the term loop -/
 
